@@ -27,46 +27,71 @@ def _vc_component(R: Report, pid: str, tier: str, only=None):
     funcs = [q for q, c in REG.contracts.items() if pid in c.properties and c.verify]
     if only:
         funcs = [q for q in funcs if q in only]
+    timeout = 15000 if tier == "quick" else 60000
+    ckey = _cache_key(eng, tier)
+    cdir = os.path.join(VERIF, ".cache", "vc", ckey)
+    os.makedirs(cdir, exist_ok=True)
+    records, undecided_all = [], []
     mods = set()
     for q in funcs:
         found = eng.src.function(q)
         if found:
             mods.add(found[1].name)
-        eng.verify(q)
         R.functions.append(q)
+        cpath = os.path.join(cdir, q + ".json")
+        if os.path.exists(cpath) and not os.environ.get("PYVC_NOCACHE"):
+            d = json.load(open(cpath))
+            records += d["records"]
+            undecided_all += [tuple(u) for u in d["undecided"]]
+            continue
+        n0, u0 = set(eng.obligations), len(eng.undecided)
+        eng.verify(q)
+        new = {k: ob for k, ob in eng.obligations.items() if k not in n0}
+        res = discharge(new, timeout, cross_check=(tier == "thorough"))
+        # an obligation the solver left open is retried alone with more time and other random seeds before it is
+        # reported: a time-out under load must not look like a failed proof
+        from .solve import retry_unknown
+        retry_unknown(new, res, timeout * 4)
+        recs = []
+        for k, ob in new.items():
+            r = res[k]
+            recs.append(dict(name=ob.name, kind=ob.kind, case=ob.case, expect_sat=ob.expect_sat, qname=ob.qname,
+                             status=r["status"], time=r["time"], backend=r["backend"], reason=r.get("reason", ""),
+                             cvc5=r.get("cvc5"), clause=ob.clause, loc=ob.loc, tags=list(ob.tags)))
+        und = [list(u) for u in eng.undecided[u0:]]
+        json.dump({"records": recs, "undecided": und}, open(cpath, "w"))
+        records += recs
+        undecided_all += [tuple(u) for u in und]
     R.hashes.update(eng.src.hashes(sorted(mods)))
-    timeout = 15000 if tier == "quick" else 60000
-    res = discharge(eng.obligations, timeout, cross_check=(tier == "thorough"))
     failed_by_fn = {}
     tags = set()
     covers = {}
-    for k, ob in eng.obligations.items():
-        if ob.expect_sat:
-            covers.setdefault((ob.name, ob.case), []).append((ob, res[k]))
+    for rec in records:
+        if rec["expect_sat"]:
+            covers.setdefault((rec["name"], rec["case"]), []).append(rec)
     # a cover is a reachability sanity check: one reachable path per (function, case) is enough; it is a vacuity
     # failure only when every path to that exit is unreachable
     for (name, case), lst in covers.items():
-        sts = [r["status"] for _, r in lst]
-        ob, r = lst[0]
+        sts = [r["status"] for r in lst]
+        r0 = lst[0]
         if "sat" in sts:
-            R.obligation(name, ob.kind, "discharged", "VC", "z3", max(x["time"] for _, x in lst), ob.clause, ob.loc, ob.tags)
+            R.obligation(name, r0["kind"], "discharged", "VC", "z3", max(x["time"] for x in lst), r0["clause"], r0["loc"], r0["tags"])
         elif all(s_ == "unsat" for s_ in sts):
             R.machinery.append(f"vacuity: cover {name} [{case}] is unreachable (contradictory precondition or axioms)")
         else:
-            R.obligation(name, ob.kind, "cover-inconclusive", "VC", "z3", 0.0, ob.clause, ob.loc)
-    for k, ob in eng.obligations.items():
-        r = res[k]
-        tags.update(ob.tags)
-        if ob.expect_sat:
+            R.obligation(name, r0["kind"], "cover-inconclusive", "VC", "z3", 0.0, r0["clause"], r0["loc"])
+    for rec in records:
+        tags.update(rec["tags"])
+        if rec["expect_sat"]:
             continue
-        if r["status"] == "unsat":
-            if r.get("cvc5") == "sat":
-                R.machinery.append(f"solver disagreement on {ob.name}: z3 unsat, cvc5 sat")
-            R.obligation(ob.name, ob.kind, "discharged", "VC", r["backend"], r["time"], ob.clause, ob.loc, ob.tags)
+        if rec["status"] == "unsat":
+            if rec.get("cvc5") == "sat":
+                R.machinery.append(f"solver disagreement on {rec['name']}: z3 unsat, cvc5 sat")
+            R.obligation(rec["name"], rec["kind"], "discharged", "VC", rec["backend"], rec["time"], rec["clause"], rec["loc"], rec["tags"])
         else:
-            failed_by_fn.setdefault(ob.qname, []).append((ob, r))
+            failed_by_fn.setdefault(rec["qname"], []).append(rec)
     und_by_fn = {}
-    for q, reason in eng.undecided:
+    for q, reason in undecided_all:
         und_by_fn.setdefault(q, []).append(reason)
 
     # triage of failed / undecided functions: concrete witness on the real code, else report the obligation
@@ -74,21 +99,21 @@ def _vc_component(R: Report, pid: str, tier: str, only=None):
         c = REG.get(q)
         w, stats = witness.search(c, budget_s=8.0 if tier == "quick" else 30.0, seed=R.seed)
         fails = failed_by_fn.get(q, [])
-        names = sorted({ob.name for ob, _ in fails})
-        solver_out = [{"obligation": ob.name, "case": ob.case, "status": r["status"], "backend": r["backend"],
-                       "reason": r["reason"], "clause": ob.clause, "loc": ob.loc} for ob, r in fails][:12]
+        names = sorted({r_["name"] for r_ in fails})
+        solver_out = [{"obligation": r_["name"], "case": r_["case"], "status": r_["status"], "backend": r_["backend"],
+                       "reason": r_["reason"], "clause": r_["clause"], "loc": r_["loc"]} for r_ in fails][:12]
         if w is not None:
             lab = w["failed"].get("label", "?")
             R.violation(f"K.{q.replace('pyvolutionary.', '')}", f"contract of {q} fails on the real code: {w['failed'].get('clause', '')[:200]}",
                         {"replay_kind": "witness", "witness": w, "failed_obligations": names, "solver": solver_out})
-            for ob, r in fails:
-                R.obligation(ob.name, ob.kind, "refuted", "VC", r["backend"], r["time"], ob.clause, ob.loc)
+            for r_ in fails:
+                R.obligation(r_["name"], r_["kind"], "refuted", "VC", r_["backend"], r_["time"], r_["clause"], r_["loc"])
             continue
         searched = stats.get("ran", 0) > 0
-        definite = [x for x in fails if x[1]["status"] == "sat"]
+        definite = [x for x in fails if x["status"] == "sat"]
         if definite:
-            for ob, r in fails:
-                R.obligation(ob.name, ob.kind, "refuted", "VC", r["backend"], r["time"], ob.clause, ob.loc)
+            for r_ in fails:
+                R.obligation(r_["name"], r_["kind"], "refuted", "VC", r_["backend"], r_["time"], r_["clause"], r_["loc"])
             R.violation(f"K.{q.replace('pyvolutionary.', '')}", f"obligations of {q} refuted by the solver: {', '.join(names)[:300]}",
                         {"replay_kind": "none", "failed_obligations": names, "solver": solver_out, "witness_search": stats},
                         no_input=True)
@@ -100,8 +125,8 @@ def _vc_component(R: Report, pid: str, tier: str, only=None):
                                              "rule": "enumerated small inputs by parameter type; case counted when the precondition holds",
                                              "bound": "list sizes <= 4, cost alphabet {0,1,-1,2.5,inf,-inf}"}
             else:
-                for ob, r in fails:
-                    R.obligation(ob.name, ob.kind, "refuted", "VC", r["backend"], r["time"], ob.clause, ob.loc)
+                for r_ in fails:
+                    R.obligation(r_["name"], r_["kind"], "refuted", "VC", r_["backend"], r_["time"], r_["clause"], r_["loc"])
                 R.violation(f"K.{q.replace('pyvolutionary.', '')}", f"obligations of {q} no longer discharged: {', '.join(names)[:300]}",
                             {"replay_kind": "none", "failed_obligations": names, "solver": solver_out, "witness_search": stats},
                             no_input=True)
@@ -130,6 +155,18 @@ TAG_TEXT = {
     "AX_concurrent_futures": "as_completed yields every submitted future exactly once in some order; Future.result() returns the callable's value",
     "AX_numpy_average_is_a_function_of_the_elements": "np.average is a deterministic function of the sequence's elements",
 }
+
+
+def _cache_key(eng, tier):
+    """results are reused only for identical inputs: every source file of the package, the verifier, the contracts"""
+    import hashlib, glob
+    h = hashlib.sha256()
+    h.update(tier.encode())
+    for m in sorted(eng.src.modules):
+        h.update(eng.src.modules[m].sha256.encode())
+    for f in sorted(glob.glob(os.path.join(VERIF, "pyvc", "*.py")) + glob.glob(os.path.join(VERIF, "contracts", "*.py"))):
+        h.update(open(f, "rb").read())
+    return h.hexdigest()[:24]
 
 
 def run(pid, tier, seed, bnd=True):
